@@ -64,10 +64,19 @@ AShapeOK(st, op) ==
     op.form = "m" \/
     (op.ac = op.std.mc /\ op.ar = (IF ColSys(st.t) THEN 1 ELSE op.std.mc))
 
+(* "When using VNACAL_T16 or VNACAL_U16 error term types with measurement  *)
+(* error modeling, the complete s-parameter matrix for each calibration    *)
+(* standard must be given"                                                 *)
+NeedsFullS(st, std) ==
+    /\ st.merr /\ Is16(st.t)
+    /\ \E ab \in (1..Ports(st.r, st.c)) \X (1..Ports(st.r, st.c)) :
+          SKnow(Ports(st.r, st.c), std)[ab] = "u"
+
 (* vnacal_new_add_*: a refused standard adds nothing *)
 DoAdd(st, op) ==
     LET v == Verdict(st.t, st.r, st.c, op.std)
     IN IF v = "refused" \/ (v = "ok" /\ ~AShapeOK(st, op)) THEN {Usage(st)}
+       ELSE IF v = "ok" /\ NeedsFullS(st, op.std) THEN {Usage(st)}
        ELSE LET an  == Analysis(st.t, st.r, st.c, op.std)
                 ss  == SysSeq(st.t, st.c)
                 cnt == TLCEval([k \in 1..Len(ss) |-> EqCountIn(an.eqs, ss[k])])
